@@ -17,6 +17,7 @@ encrypted under a secret decrypts exactly for its holders).
   confirmed witness `create{0,1}; 0 adds 2 ∥ 1 updates` (known finding
   `add-concurrent-with-secret-rotation`).
 -/
+import P2.Extracted.C35
 import P2.Model.GroupEnc
 import P2.Props.C36
 
@@ -1292,5 +1293,29 @@ example : ((seqRun 1000 (seqCreate 1000 0 [0, 1] 1) demoOps) 0).bundle.secrets.m
     ∧ ((seqRun 1000 (seqCreate 1000 0 [0, 1] 1) demoOps) 2).bundle.latest = some 4
     ∧ ((seqRun 1000 (seqCreate 1000 0 [0, 1] 1) (demoOps.take 4)) 0).bundle.secrets.map (·.id) = [1, 2] := by
   decide
+
+/-! ## Tie to the current source text (DESIGN.md §4.2) -/
+
+/-- **The model is the source.** `./check` re-extracts these fragments from /repo on every run
+    (regular expressions anchored on the surrounding statements; a fragment that no longer matches is
+    itself a failure of the proof stage). They are who gets which secret in `Dcgka` / `EncryptionGroup` as transcribed in `P2.GroupEnc.op*` / `applyControl`: update → members except self, remove → members except self and the removed, create → the initial members (self skipped in `send_group_secret`), add → one welcome to the added member carrying the adder's whole bundle (`&y.secrets`) and its DGM state; issuer inserts its own generated secret; remote `Secret` → insert, `Bundle` → extend; welcomed iff member; decryption looks the secret id up in the bundle. Any edit of one of these
+    operators / operands / call shapes changes the extracted text and this theorem stops checking —
+    before a single input is generated. -/
+theorem c35_source_ops :
+    P2.Extracted.C35.updateRecipients = "member != &y.my_id"
+    ∧ P2.Extracted.C35.removeRecipients = "member != &y.my_id && member != &removed"
+    ∧ P2.Extracted.C35.createRecipients = "&initial_members"
+    ∧ P2.Extracted.C35.skipSelf = "recipient == &y_loop.my_id"
+    ∧ P2.Extracted.C35.welcomeBundle = "bundle.to_bytes()?"
+    ∧ P2.Extracted.C35.welcomeHistory = "y_i.dgm.clone()"
+    ∧ P2.Extracted.C35.welcomeRecipient = "added"
+    ∧ P2.Extracted.C35.groupAddBundle = "&y.secrets"
+    ∧ P2.Extracted.C35.removeInsertsOwn = "Self::process_local(y, pre, Some(group_secret))"
+    ∧ P2.Extracted.C35.updateInsertsOwn = "Self::process_local(y, pre, Some(group_secret))"
+    ∧ P2.Extracted.C35.remoteSecret = "SecretBundle::insert(y.secrets, group_secret)"
+    ∧ P2.Extracted.C35.remoteBundle = "SecretBundle::extend(y.secrets, secret_bundle_state)"
+    ∧ P2.Extracted.C35.welcomedCond = "!y_i.is_welcomed && we_are_members"
+    ∧ P2.Extracted.C35.decryptLookup = "y.secrets.get(&group_secret_id)" :=
+  ⟨rfl, rfl, rfl, rfl, rfl, rfl, rfl, rfl, rfl, rfl, rfl, rfl, rfl, rfl⟩
 
 end P2.C35
